@@ -70,13 +70,24 @@ func DocFlow(w *load.World, c *core.Collector) {
 	props := []string{"C01", "C02"}
 	n := 0
 	for _, f := range w.Fns {
-		if load.PkgPath(f) != load.Mod+"/shard" || f.Parent() == nil {
+		if load.PkgPath(f) != load.Mod+"/shard" || f.Synthetic != "" {
 			continue
 		}
 		res := f.Signature.Results()
 		if res.Len() == 0 || ssax.TypeName(res.At(0).Type()) != "index.IndexPointChange" {
 			continue
 		}
+		// which result is the error, which the flag (skip for a pipeline transform, found for a helper
+		// of one: the polarity is read off the not-found return below)
+		errIdx, boolIdx := -1, -1
+		for i := 1; i < res.Len(); i++ {
+			if isErrorType(res.At(i).Type()) {
+				errIdx = i
+			} else if bt, ok := res.At(i).Type().Underlying().(*types.Basic); ok && bt.Kind() == types.Bool {
+				boolIdx = i
+			}
+		}
+		noChange := true
 		var setPoint, delPoint, getPoint *ssa.Call
 		var delHelper *removalHelper
 		for _, b := range f.Blocks {
@@ -109,6 +120,21 @@ func DocFlow(w *load.World, c *core.Collector) {
 		}
 		n++
 		fk := load.FnKey(f)
+		notFound := notFoundEdges(f, delHelper, delPoint)
+		if boolIdx >= 0 {
+			for _, b := range f.Blocks {
+				ret, ok := b.Instrs[len(b.Instrs)-1].(*ssa.Return)
+				if !ok || boolIdx >= len(ret.Results) || !onlyViaAny(notFound, b) {
+					continue
+				}
+				if errIdx >= 0 && nonNilError(ssax.ReturnOperand(ret, errIdx), b) {
+					continue
+				}
+				if v, isC := ssax.ConstBool(ssax.ReturnOperand(ret, boolIdx)); isC {
+					noChange = v
+				}
+			}
+		}
 		// the change record: named result cell or the returned struct value
 		changeField := func(name string) map[string]ssax.Origin {
 			out := map[string]ssax.Origin{}
@@ -121,11 +147,11 @@ func DocFlow(w *load.World, c *core.Collector) {
 					continue
 				}
 				// only success returns describe a change
-				if len(ret.Results) >= 3 && nonNilError(ssax.ReturnOperand(ret, 2), b) {
+				if errIdx >= 0 && errIdx < len(ret.Results) && nonNilError(ssax.ReturnOperand(ret, errIdx), b) {
 					continue
 				}
-				if len(ret.Results) >= 2 {
-					if skip, isC := ssax.ConstBool(ssax.ReturnOperand(ret, 1)); isC && skip {
+				if boolIdx >= 0 && boolIdx < len(ret.Results) {
+					if skip, isC := ssax.ConstBool(ssax.ReturnOperand(ret, boolIdx)); isC && skip == noChange {
 						continue
 					}
 				}
@@ -190,7 +216,6 @@ func DocFlow(w *load.World, c *core.Collector) {
 		}
 		// ---- skip discipline: a change is dropped (skip == true) only for an id the store does not know,
 		// and never after the point store has been changed
-		notFound := notFoundEdges(f, delHelper, delPoint)
 		for _, b := range f.Blocks[:0] {
 			ifi, ok := b.Instrs[len(b.Instrs)-1].(*ssa.If)
 			if !ok {
@@ -238,15 +263,15 @@ func DocFlow(w *load.World, c *core.Collector) {
 				continue
 			}
 			ret, ok := b.Instrs[len(b.Instrs)-1].(*ssa.Return)
-			if !ok || len(ret.Results) < 2 {
+			if !ok || boolIdx < 0 || boolIdx >= len(ret.Results) {
 				continue
 			}
-			skip, isC := ssax.ConstBool(ssax.ReturnOperand(ret, 1))
-			mayskip := !isC || skip
-			if isC && !skip {
+			skip, isC := ssax.ConstBool(ssax.ReturnOperand(ret, boolIdx))
+			mayskip := !isC || skip == noChange
+			if isC && skip != noChange {
 				continue
 			}
-			if len(ret.Results) >= 3 && nonNilError(ssax.ReturnOperand(ret, 2), b) {
+			if errIdx >= 0 && errIdx < len(ret.Results) && nonNilError(ssax.ReturnOperand(ret, errIdx), b) {
 				continue
 			}
 			_ = mayskip
